@@ -301,13 +301,16 @@ class Compiler:
 
         indexes = []
         names = {target.name: index for index, target in enumerate(targets)}
+        # Only targets appearing in the SELECT targets list can be
+        # referenced by index: hidden targets are not result columns.
+        n_targets = sum(1 for target in targets if target.name is not None)
 
         for column in pivot_by.columns:
 
             # Process target references by index.
             if isinstance(column, int):
                 index = column - 1
-                if not 0 <= index < len(targets):
+                if not 0 <= index < n_targets:
                     raise CompilationError(f'invalid PIVOT BY column index {column}')
                 indexes.append(index)
                 continue
